@@ -284,6 +284,26 @@ func programs() []program {
 			}
 		})
 	})
+	// with an equivalence every subscriber keeps its own record of what it last sent and rewrites old values:
+	// the change object it was handed is shared with the other subscribers
+	add("collection(no duplicates)/Pull+consume||Pull+consume||equivalent write, then another", func() {
+		c := resource.NewCollection(resource.WithInitialRecord("a", tm(12)), resource.WithNoDuplicates())
+		ctx, cancel := context.WithCancel(bg)
+		consume := func(opts ...resource.ReadOption) func() {
+			return func() {
+				for e := range c.Pull(ctx, opts...) {
+					touch(e.NewValue)
+					touch(e.OldValue)
+				}
+			}
+		}
+		par(consume(resource.WithBackpressure(true)), consume(resource.WithBackpressure(true)), func() {
+			c.Update("a", tm(12)) // equivalent to what is stored: suppressed
+			c.Update("a", tm(10))
+			cancel()
+		})
+		cancel()
+	})
 	add("collection/Pull+consume||Update||Upsert", func() {
 		c := resource.NewCollection(resource.WithInitialRecord("a", tm(12)))
 		ctx, cancel := context.WithCancel(bg)
@@ -557,6 +577,12 @@ func programs() []program {
 		e := electricpb.NewModel(electricpb.WithRNG(rand.New(rand.NewSource(3))))
 		par(func() { e.CreateMode(&traits.ElectricMode{Title: "a"}) }, func() { e.CreateMode(&traits.ElectricMode{Title: "b"}) })
 	})
+	// two independent models constructed with default options, used by two goroutines: nothing configured by
+	// default may be shared between them
+	add("electric/two default models: CreateMode||CreateMode", func() {
+		a, b := electricpb.NewModel(), electricpb.NewModel()
+		par(func() { a.CreateMode(&traits.ElectricMode{Title: "a"}) }, func() { b.CreateMode(&traits.ElectricMode{Title: "b"}) })
+	})
 	add("vending/Dispense||GetStock||List", func() {
 		v := vendingpb.NewModel(vendingpb.WithInitialStock(&traits.Consumable_Stock{Consumable: "milk", Used: &traits.Consumable_Quantity{Unit: traits.Consumable_LITER, Amount: 1}, Remaining: &traits.Consumable_Quantity{Unit: traits.Consumable_LITER, Amount: 9}}))
 		par(func() {
@@ -666,7 +692,11 @@ func main() {
 		}
 	})
 	for _, p := range programs() {
-		h.Sched(p.name, 1, 2, p.body, raceOracle(p.name))
+		q, t := 1, 2
+		if strings.HasPrefix(p.name, "collection(no duplicates)/") {
+			q, t = 0, 1 // three callers on two full subscription pipelines: 70 000 executions at one preemption
+		}
+		h.Sched(p.name, q, t, p.body, raceOracle(p.name))
 	}
 	h.Run()
 }
